@@ -104,7 +104,7 @@ KNOWN_KEYS = {
     "allOf",
     "type", "title", "properties", "required", "additionalProperties", "items", "enum", "const", "$ref", "anyOf", "oneOf",
     "minimum", "maximum", "exclusiveMinimum", "exclusiveMaximum", "multipleOf", "minLength", "maxLength", "pattern",
-    "minItems", "maxItems", "definitions", "x-draft4",
+    "minItems", "maxItems", "definitions", "x-draft4", "discriminator",
 }
 
 
@@ -148,10 +148,14 @@ def schema_sx(s: Any, top: bool = False) -> str:
             raise Unmodelled("allOf without $ref part")
         ps = " ".join(f"({hx(k)} {schema_sx(v)})" for k, v in (props or {}).items())
         return f"(allOf ({' '.join(hx(r) for r in refs)}) ({ps}) ({' '.join(hx(k) for k in req)}) ({' '.join(hx(k) for k in xreq)}))"
+    if "discriminator" in s:
+        return disc_sx(s)
     if "anyOf" in s or "oneOf" in s:
         key = "anyOf" if "anyOf" in s else "oneOf"
         if set(s) - {key, "title", "definitions", "x-draft4"}:
             raise Unmodelled("union with sibling keywords")
+        if any(isinstance(a, dict) and "discriminator" in a for a in s[key]):
+            raise Unmodelled("discriminated union nested in a union")
         return f"({key}" + "".join(" " + schema_sx(a) for a in s[key]) + ")"
     if "const" in s:
         if set(s) - {"const", "title"}:
@@ -224,7 +228,78 @@ def schema_sx(s: Any, top: bool = False) -> str:
     raise Unmodelled(f"type {t}")
 
 
+def disc_parts(s: dict) -> tuple[str, str, list[str], list[tuple[str, str]]]:
+    """(union keyword, property name, alternative definition names, mapping as (tag, definition name))
+    of a discriminated union node; raises Unmodelled outside the modelled shape"""
+    key = "oneOf" if "oneOf" in s else ("anyOf" if "anyOf" in s else None)
+    if key is None or set(s) - {key, "discriminator", "title", "definitions", "x-draft4"}:
+        raise Unmodelled("discriminator outside a plain oneOf/anyOf")
+    d = s["discriminator"]
+    if not isinstance(d, dict) or set(d) - {"propertyName", "mapping"} or not isinstance(d.get("propertyName"), str):
+        raise Unmodelled("discriminator shape")
+    refs = []
+    for a in s[key]:
+        if not isinstance(a, dict) or set(a) != {"$ref"} or not a["$ref"].startswith("#/definitions/"):
+            raise Unmodelled("discriminated alternative that is not a local $ref")
+        refs.append(a["$ref"].rsplit("/", 1)[1])
+    mp = []
+    for k, r in (d.get("mapping") or {}).items():
+        if not isinstance(r, str) or not r.startswith("#/definitions/"):
+            raise Unmodelled("discriminator mapping value that is not a local $ref")
+        mp.append((k, r.rsplit("/", 1)[1]))
+    if mp and (set(refs) - {r for _, r in mp}):
+        raise Unmodelled("mapping that does not name every alternative (the generator raises)")
+    return key, d["propertyName"], refs, mp
+
+
+def disc_sx(s: dict) -> str:
+    key, prop, refs, mp = disc_parts(s)
+    return f"(disc {1 if key == 'oneOf' else 0} {hx(prop)} ({' '.join(hx(r) for r in refs)}) ({' '.join(f'({hx(k)} {hx(r)})' for k, r in mp)}))"
+
+
+def check_disc_doc(doc: dict) -> None:
+    """The Lean model rewrites the class of an alternative where the tagged union looks it up; the real
+    pass rewrites the class itself. The two coincide when every definition that is the alternative of a
+    discriminated union is an object class, is referenced only as such an alternative, and always gets
+    the same tag literals; other documents are outside the model (Unmodelled)."""
+    defs = doc.get("definitions") or {}
+    targets: dict[str, set] = {}
+    other_refs: set = set()
+
+    def walk(s, in_disc_alt=False):
+        if isinstance(s, list):
+            for x in s:
+                walk(x)
+            return
+        if not isinstance(s, dict):
+            return
+        if "discriminator" in s and ("oneOf" in s or "anyOf" in s):
+            key, prop, refs, mp = disc_parts(s)
+            eff = mp or [(r, r) for r in refs]
+            for r in refs:
+                targets.setdefault(r, set()).add((prop, tuple(k for k, rr in eff if rr == r)))
+            for k, v in s.items():
+                if k not in ("oneOf", "anyOf", "discriminator"):
+                    walk(v)
+            return
+        if "$ref" in s and isinstance(s["$ref"], str):
+            other_refs.add(s["$ref"].rsplit("/", 1)[1])
+        for v in s.values():
+            walk(v)
+
+    walk(doc)
+    for r, uses in targets.items():
+        d = defs.get(r)
+        if not (isinstance(d, dict) and d.get("type") == "object" and d.get("properties")):
+            raise Unmodelled("discriminated alternative that is not an object definition")
+        if r in other_refs:
+            raise Unmodelled("discriminated alternative also referenced directly")
+        if len(uses) != 1:
+            raise Unmodelled("definition discriminated with different tags")
+
+
 def defs_sx(doc: dict) -> str:
+    check_disc_doc(doc)
     return "(" + " ".join(f"({hx(k)} {schema_sx(v, top=True)})" for k, v in (doc.get("definitions") or {}).items()) + ")"
 
 
@@ -291,6 +366,24 @@ def parse_sx(text: str):
     return out
 
 
+def json_of_sx(t) -> Any:
+    """nested lists of a dumped `Json` (driver `showJson`) → Python value"""
+    if t == "null":
+        return None
+    h = t[0]
+    if h == "b":
+        return t[1] == "1"
+    if h == "n":
+        return _num(t[1], t[2])
+    if h == "s":
+        return unhx(t[1])
+    if h == "a":
+        return [json_of_sx(x) for x in t[1:]]
+    if h == "o":
+        return {unhx(kv[0]): json_of_sx(kv[1]) for kv in t[1:]}
+    raise ValueError(f"unknown Json dump {t!r}")
+
+
 def _num(m: str, e: str):
     m, e = int(m), int(e)
     return m if e == 0 else m / (10**e)
@@ -337,17 +430,20 @@ def canon_ty(t) -> Any:
         return ("ref", unhx(t[1]))
     if h == "union":
         return ("union", tuple(canon_ty(x) for x in t[1:]))
+    if h == "tagged":
+        return ("tagged", unhx(t[1]), tuple((tuple(canon_atom(a) for a in b[0]), unhx(b[1])) for b in t[2:]))
     raise ValueError(f"unknown Ty dump {t!r}")
 
 
 # ------------------------------------------------------------------ IR of the real parser
-def _parser(doc: dict, style: str, routing: str):
+def _parser(doc: dict, style: str, routing: str, extra: dict | None = None):
     from datamodel_code_generator.model import pydantic as p1
     from datamodel_code_generator.model import pydantic_v2 as p2
     from datamodel_code_generator.parser.jsonschema import JsonSchemaParser
 
     mod = p1 if style == "v1" else p2
     opts = {"contype": {}, "field": {"field_constraints": True}, "annotated": {"field_constraints": True, "use_annotated": True}}[routing]
+    opts = {**opts, **(extra or {})}
     with warnings.catch_warnings():
         warnings.simplefilter("ignore")
         p = JsonSchemaParser(
@@ -395,10 +491,30 @@ def _cons_from(d: dict) -> tuple:
 
 
 class RealIR:
-    def __init__(self, doc: dict, style: str, routing: str) -> None:
-        self.p = _parser(doc, style, routing)
+    def __init__(self, doc: dict, style: str, routing: str, extra: dict | None = None) -> None:
+        self.p = _parser(doc, style, routing, extra)
+        # the discriminator pass of Parser.parse() (it rewrites the tag member of the alternatives' classes)
+        from datamodel_code_generator.imports import Imports
+
+        self.p._Parser__apply_discriminator_type(self.p.results, Imports())
         self.by_path = {r.reference.path: r for r in self.p.results}
         self.defs = set((doc.get("definitions") or {}).keys())
+
+    def reuse_merges(self) -> list[tuple[str, str]]:
+        """run the real `Parser.__reuse_model` on the parsed models and report which definition was turned into
+        an alias (`class B(A): pass`) of which: [(B, A)] — only pairs of named definitions"""
+        self.p.reuse_model = True
+        models = list(self.p.results)
+        self.p._Parser__reuse_model(models, [])
+        out = []
+        for m in models:
+            path = m.reference.path
+            if path.endswith("/reuse") and m.base_classes and m.base_classes[0].reference is not None:
+                b = self.def_name(path[: -len("/reuse")])
+                a = self.def_name(m.base_classes[0].reference.path)
+                if a is not None and b is not None:
+                    out.append((b, a))
+        return out
 
     def def_name(self, path: str) -> str | None:
         if "#/definitions/" in path:
@@ -438,7 +554,7 @@ class RealIR:
         extra = "unset" if extra is None else str(extra).strip("'\"").rsplit(".", 1)[-1]
         fields = []
         for f in dm.fields:
-            fields.append(("field", f.original_name if f.original_name is not None else f.name, bool(f.required), self.field_cons(f), self.dump_field_type(f)))
+            fields.append(("field", f.original_name if f.original_name is not None else (f.alias or f.name), bool(f.required), self.field_cons(f), self.dump_field_type(f)))
         bases = [b.reference for b in dm.base_classes if b.reference]
         if bases:
             names = []
@@ -458,9 +574,39 @@ class RealIR:
         return _cons_from(d)
 
     def dump_field_type(self, f) -> Any:
+        if f.data_type.literals:  # a tag member rewritten by the discriminator pass (its `const` extra stays behind)
+            return self.dump_type(f.data_type)
         if "const" in f.extras:
             return ("const", canon_py_atom(f.extras["const"]))
+        disc = f.extras.get("discriminator")
+        if isinstance(disc, dict) and disc.get("propertyName"):
+            return self.dump_tagged(f, disc["propertyName"])
         return self.dump_type(f.data_type)
+
+    def dump_tagged(self, f, py_prop: str) -> Any:
+        """`Union[...] = Field(discriminator=…)`: the property by wire name and, per alternative, the tag
+        literals found in its class after the discriminator pass"""
+        dt = f.data_type
+        branches = []
+        wire = None
+        for alt in dt.data_types:
+            if alt.reference is None:
+                raise Unmodelled("tagged union over a non-class")
+            name = self.def_name(alt.reference.path)
+            src = self.by_path.get(alt.reference.path)
+            if name is None or src is None:
+                raise Unmodelled("tagged alternative that is not a definition")
+            tags = None
+            for mf in src.fields:
+                if mf.name == py_prop or mf.original_name == py_prop:
+                    tags = tuple(canon_py_atom(x) for x in mf.data_type.literals)
+                    w = mf.original_name if mf.original_name is not None else (mf.alias or mf.name)
+                    wire = w if wire is None else wire
+            if tags is None:
+                raise Unmodelled("alternative without the tag member")
+            branches.append((tags, name))
+        inner = ("tagged", wire if wire is not None else py_prop, tuple(branches))
+        return ("opt", inner) if dt.is_optional else inner
 
     def dump_type(self, dt) -> Any:
         inner = self._dump_core(dt)
